@@ -14,72 +14,57 @@ import (
 )
 
 // C01.R2 — freshness of cached iterators: an exact reachable-valuation analysis (powerset domain) over
-// found-flags {T,F} and iterator fields {S = left over from an earlier call, A = assigned in this call, N = nil}.
+//   - the iterator fields of the per-worker decoder: S = left over from an earlier element/block, A = assigned
+//     while decoding the current element, N = nil;
+//   - the boolean locals (found-flags) of the function being executed: T / F;
+//   - its error locals: Z = nil, E = non-nil, ? = unknown.
+// The analysis is interprocedural by inlining: a call of a method of the per-worker decoder is executed on the
+// callee's CFG from the caller's field valuation, and every (field valuation, nil-ness of the returned error) pair
+// it can return with continues in the caller. The result therefore does not depend on how the decoding of one
+// element is split into methods. One analysis is run per element message of a primitive group (the method that
+// receives the bytes of a DenseNodes / Way / Relation message), starting from "every iterator is stale".
 
-type c01State map[string]byte // variable key -> value
-
-func (s c01State) key(order []string) string {
-	b := make([]byte, len(order))
-	for i, k := range order {
-		b[i] = s[k]
-	}
-	return string(b)
+type c01Exit struct {
+	fields string
+	err    byte // 'Z' nil, 'E' non-nil, '?' unknown, '-' no error result
 }
 
 type c01Fresh struct {
-	r      *core.R
-	cm     *c01Model
-	fi     *FuncInfo
-	info   *types.Info
-	order  []string              // variable keys in fixed order
-	fields map[*types.Var]string // iterator field -> key
-	bools  map[types.Object]string
-	// violations: field key -> description
-	viol   map[string]string
-	vpos   map[string]token.Pos
-	nuse   map[string]int
-	usePos map[string]map[token.Pos]bool
-	nstate int
+	r        *core.R
+	cm       *c01Model
+	info     *types.Info
+	fields   []*types.Var
+	fieldIdx map[*types.Var]int
+	viol     map[*types.Var]string
+	vpos     map[*types.Var]token.Pos
+	usePos   map[*types.Var]map[token.Pos]bool
+	nstate   int
+	memo     map[string][]c01Exit
+	stack    map[*types.Func]bool
+	unknown  string
+	upos     token.Pos
 }
 
-// c01Summary: how a callee (method of the per-worker decoder) uses cached iterator fields through its receiver:
-// "A" = some use is not nil-guarded (needs an iterator assigned in this call), "AN" = every use is nil-guarded.
-func c01Summary(cm *c01Model, fn *types.Func) map[*types.Var]string {
-	m := cm.m
-	info := m.info
-	fi := findFunc(m.pk, funcName(fn))
-	out := map[*types.Var]string{}
-	if fi == nil {
-		return out
-	}
-	g := newCFG(info, fi.Decl.Body)
-	dom := dominators(g)
-	ast.Inspect(fi.Decl.Body, func(n ast.Node) bool {
-		sel, ok := n.(*ast.SelectorExpr)
-		if !ok {
-			return true
-		}
-		f := fieldOf(info, sel)
-		if f == nil || namedPath(f.Type()) != protoscanIter || namedPath(selRecv(info, sel)) != namedPath(m.ddT) {
-			return true
-		}
-		// a comparison with nil is not a use
-		par := parentsOf(cm.p, fi)
-		if be, ok := par[sel].(*ast.BinaryExpr); ok && (be.Op == token.NEQ || be.Op == token.EQL) {
-			return true
-		}
-		guard := c06NilGuard(info, g, dom, sel, sel)
-		if strings.HasPrefix(guard, "guarded") {
-			if out[f] == "" {
-				out[f] = "AN"
-			}
-		} else {
-			out[f] = "A"
-		}
-		return true
-	})
-	return out
+// c01Frame is the execution of one function.
+type c01Frame struct {
+	fr     *c01Fresh
+	fi     *FuncInfo
+	f      *c01Fn
+	locals []types.Object // tracked bool / error locals, fixed order
+	lidx   map[types.Object]int
+	exits  map[c01Exit]bool
 }
+
+type c01St struct {
+	fields []byte
+	locals []byte
+}
+
+func (s c01St) clone() c01St {
+	return c01St{fields: append([]byte{}, s.fields...), locals: append([]byte{}, s.locals...)}
+}
+
+func (s c01St) key() string { return string(s.fields) + "|" + string(s.locals) }
 
 func c01R2(r *core.R) {
 	cm := c01ModelOrAnchor(r)
@@ -88,254 +73,425 @@ func c01R2(r *core.R) {
 	}
 	m := cm.m
 	info := m.info
-	// functions that fill cached iterators
-	fset := map[*types.Func]*FuncInfo{}
+	// tracked state: every iterator field of the per-worker decoder
+	var fields []*types.Var
+	st := m.ddT.Underlying().(*types.Struct)
+	for i := 0; i < st.NumFields(); i++ {
+		if namedPath(st.Field(i).Type()) == protoscanIter {
+			fields = append(fields, st.Field(i))
+		}
+	}
+	if len(fields) == 0 {
+		r.Anchor("iterator fields of the per-worker decoder")
+		return
+	}
+	// roots: the methods that receive the bytes of an element message of a primitive group
+	elemMsg := map[string]bool{}
+	if pg := cm.desc.Messages["PrimitiveGroup"]; pg != nil {
+		for _, f := range pg.Fields {
+			if f.IsMsg {
+				elemMsg[f.Type] = true
+			}
+		}
+	}
+	type root struct {
+		fi  *FuncInfo
+		msg string
+	}
+	var roots []root
+	for _, fi := range cm.worker {
+		for _, po := range c01ParamObjs(info, fi) {
+			if po != nil && c01IsByteSlice(po.Type()) && elemMsg[cm.dataMsg[po]] {
+				roots = append(roots, root{fi, cm.dataMsg[po]})
+				break
+			}
+		}
+	}
+	// a root reached from another root of the same message is part of that root's analysis
+	var top []root
+	for _, a := range roots {
+		inner := false
+		for _, b := range roots {
+			if a.fi == b.fi || a.msg != b.msg {
+				continue
+			}
+			for _, g := range c01Reachable(r.P, b.fi) {
+				if g.Obj == a.fi.Obj {
+					inner = true
+				}
+			}
+		}
+		if !inner {
+			top = append(top, a)
+		}
+	}
+	sort.Slice(top, func(i, j int) bool { return top[i].fi.Decl.Pos() < top[j].fi.Decl.Pos() })
+	filled := map[string]bool{}
 	for _, it := range cm.iters {
 		for _, s := range it.sources {
-			fset[s.fi.Obj] = s.fi
+			filled[s.msg] = true
 		}
 	}
-	var fis []*FuncInfo
-	for _, fi := range fset {
-		fis = append(fis, fi)
+	nroots := 0
+	for _, rt := range top {
+		fr := &c01Fresh{r: r, cm: cm, info: info, fields: fields, fieldIdx: map[*types.Var]int{}, viol: map[*types.Var]string{}, vpos: map[*types.Var]token.Pos{},
+			usePos: map[*types.Var]map[token.Pos]bool{}, memo: map[string][]c01Exit{}, stack: map[*types.Func]bool{}}
+		for i, f := range fields {
+			fr.fieldIdx[f] = i
+		}
+		init := make([]byte, len(fields))
+		for i := range init {
+			init[i] = 'S'
+		}
+		fr.run(rt.fi, string(init))
+		if fr.unknown != "" {
+			r.Unknown("fresh@"+rt.msg, fr.upos, "%s", fr.unknown)
+			continue
+		}
+		used := 0
+		for _, f := range fields {
+			c := "fresh@" + rt.msg + " dec." + f.Name()
+			n := len(fr.usePos[f])
+			if v, bad := fr.viol[f]; bad {
+				r.Bad(c, fr.vpos[f], "%s", v)
+				used++
+			} else if n > 0 {
+				used++
+				r.OK(c, rt.fi.Decl.Pos(), "at each of its %d use(s) while a %s message is decoded (from %s, through every method it calls), in every reachable valuation of the found-flags (%d block states explored), dec.%s was assigned from the current message or is nil", n, rt.msg, rt.fi.Name(), fr.nstate, f.Name())
+			}
+		}
+		if used > 0 {
+			nroots++
+		}
 	}
-	sort.Slice(fis, func(i, j int) bool { return fis[i].Decl.Pos() < fis[j].Decl.Pos() })
-	if len(fis) < 3 {
-		r.Anchor(fmt.Sprintf("functions filling cached iterators (found %d, expected dense nodes, ways, relations)", len(fis)))
+	// every element message whose columns are cached must have been analysed
+	var fm []string
+	for msg := range filled {
+		fm = append(fm, msg)
 	}
-	for _, fi := range fis {
-		fr := &c01Fresh{r: r, cm: cm, fi: fi, info: info, fields: map[*types.Var]string{}, bools: map[types.Object]string{}, viol: map[string]string{}, vpos: map[string]token.Pos{}, nuse: map[string]int{}, usePos: map[string]map[token.Pos]bool{}}
-		// tracked iterator fields: every iterator field of the decoder mentioned in fi or in callee summaries
-		addField := func(f *types.Var) {
-			if _, ok := fr.fields[f]; !ok {
-				fr.fields[f] = "dec." + f.Name()
-				fr.order = append(fr.order, "dec."+f.Name())
-			}
+	sort.Strings(fm)
+	want := 0
+	for _, msg := range fm {
+		if elemMsg[msg] {
+			want++
 		}
-		ast.Inspect(fi.Decl.Body, func(n ast.Node) bool {
-			switch x := n.(type) {
-			case *ast.SelectorExpr:
-				if f := fieldOf(info, x); f != nil && namedPath(f.Type()) == protoscanIter && namedPath(selRecv(info, x)) == namedPath(m.ddT) {
-					addField(f)
-				}
-			case *ast.CallExpr:
-				if fn := callee(info, x); fn != nil && fn.Pkg() == m.pk.Types {
-					if sig := fn.Type().(*types.Signature); sig.Recv() != nil && namedPath(sig.Recv().Type()) == namedPath(m.ddT) {
-						for f := range c01Summary(cm, fn) {
-							addField(f)
-						}
-					}
-				}
-			case *ast.ValueSpec:
-				for _, nm := range x.Names {
-					if o := info.Defs[nm]; o != nil && types.Identical(o.Type(), types.Typ[types.Bool]) {
-						fr.bools[o] = nm.Name + "@" + r.P.Rel(nm.Pos())
-						fr.order = append(fr.order, fr.bools[o])
-					}
-				}
-			}
-			return true
-		})
-		sort.Strings(fr.order)
-		fr.run()
-		// one obligation per tracked field
-		var keys []string
-		for _, k := range fr.fields {
-			keys = append(keys, k)
-		}
-		sort.Strings(keys)
-		for _, k := range keys {
-			c := "fresh@" + fi.Name() + " " + k
-			if v, bad := fr.viol[k]; bad {
-				r.Bad(c, fr.vpos[k], "%s", v)
-			} else if fr.nuse[k] == 0 {
-				r.OKTrivial(c, fi.Decl.Pos(), "not used in this function")
-			} else {
-				r.OK(c, fi.Decl.Pos(), "at each of its %d use(s), in every reachable valuation of the found-flags (%d block states explored), %s was assigned in this call or is nil", fr.nuse[k], fr.nstate, k)
-			}
-		}
+	}
+	if nroots < want || want == 0 {
+		r.Anchor(fmt.Sprintf("methods receiving the bytes of an element message and using cached iterators (found %d; iterators are filled from %s, of which %d are element messages of a primitive group)", nroots, strings.Join(fm, ", "), want))
 	}
 }
 
-func (fr *c01Fresh) run() {
+// run executes fi from the given field valuation and returns the ways it can return.
+func (fr *c01Fresh) run(fi *FuncInfo, entry string) []c01Exit {
+	key := fmt.Sprintf("%p|%s", fi.Obj, entry)
+	if ex, ok := fr.memo[key]; ok {
+		return ex
+	}
+	if fr.stack[fi.Obj] {
+		if fr.unknown == "" {
+			fr.unknown, fr.upos = fmt.Sprintf("%s is recursive: the freshness analysis inlines the decoder's methods and does not handle recursion", fi.Name()), fi.Decl.Pos()
+		}
+		return nil
+	}
+	fr.stack[fi.Obj] = true
+	defer delete(fr.stack, fi.Obj)
 	info := fr.info
-	m := fr.cm.m
-	g := newCFG(info, fr.fi.Decl.Body)
-	init := c01State{}
-	for _, k := range fr.order {
-		if strings.HasPrefix(k, "dec.") {
-			init[k] = 'S'
-		} else {
-			init[k] = 'F'
+	fm := &c01Frame{fr: fr, fi: fi, f: c01FnOf(fr.r.P, fi), lidx: map[types.Object]int{}, exits: map[c01Exit]bool{}}
+	// tracked locals: bool and error variables declared in fi (parameters included)
+	addLocal := func(o types.Object) {
+		if o == nil {
+			return
+		}
+		if _, dup := fm.lidx[o]; dup {
+			return
+		}
+		if v, ok := o.(*types.Var); !ok || v.IsField() {
+			return
+		}
+		if types.Identical(o.Type(), types.Typ[types.Bool]) || isErrorType(o.Type()) {
+			fm.lidx[o] = len(fm.locals)
+			fm.locals = append(fm.locals, o)
 		}
 	}
-	in := map[*cfg.Block]map[string]c01State{}
-	add := func(b *cfg.Block, s c01State) bool {
-		if in[b] == nil {
-			in[b] = map[string]c01State{}
-		}
-		k := s.key(fr.order)
-		if _, ok := in[b][k]; ok {
+	ast.Inspect(fi.Decl, func(n ast.Node) bool {
+		if _, ok := n.(*ast.FuncLit); ok {
 			return false
 		}
-		cp := c01State{}
-		for a, v := range s {
-			cp[a] = v
+		if id, ok := n.(*ast.Ident); ok {
+			addLocal(info.Defs[id])
 		}
-		in[b][k] = cp
 		return true
+	})
+	init := c01St{fields: []byte(entry), locals: make([]byte, len(fm.locals))}
+	for i, o := range fm.locals {
+		if isErrorType(o.Type()) {
+			init.locals[i] = 'Z'
+			if c01ParamIndex(info, fi, o) >= 0 {
+				init.locals[i] = '?'
+			}
+		} else {
+			init.locals[i] = 'F'
+		}
 	}
+	starts := []c01St{init}
+	// boolean parameters are unknown: explore both values
+	for i, o := range fm.locals {
+		if !isErrorType(o.Type()) && c01ParamIndex(info, fi, o) >= 0 {
+			var nw []c01St
+			for _, s := range starts {
+				t := s.clone()
+				t.locals[i] = 'T'
+				nw = append(nw, s, t)
+			}
+			starts = nw
+		}
+	}
+	g := fm.f.g
+	seen := map[*cfg.Block]map[string]bool{}
 	type item struct {
 		b *cfg.Block
-		s c01State
+		s c01St
 	}
 	var work []item
-	push := func(b *cfg.Block, s c01State) {
-		if add(b, s) {
-			cp := c01State{}
-			for a, v := range s {
-				cp[a] = v
-			}
-			work = append(work, item{b, cp})
+	// a local is dead outside its lexical scope: its value is normalised there so that dead found-flags of an
+	// inner block do not multiply the valuations of the enclosing loop
+	type span struct{ pos, end token.Pos }
+	scopes := make([]span, len(fm.locals))
+	for i, o := range fm.locals {
+		if sc := o.Parent(); sc != nil {
+			scopes[i] = span{sc.Pos(), sc.End()}
 		}
 	}
-	push(g.Blocks[0], init)
-	for len(work) > 0 {
+	push := func(b *cfg.Block, s c01St) {
+		if seen[b] == nil {
+			seen[b] = map[string]bool{}
+		}
+		if len(b.Nodes) > 0 {
+			p := b.Nodes[0].Pos()
+			var ns *c01St
+			for i := range fm.locals {
+				if scopes[i].end.IsValid() && (p < scopes[i].pos || p >= scopes[i].end) && s.locals[i] != init.locals[i] {
+					if ns == nil {
+						c := s.clone()
+						ns = &c
+					}
+					ns.locals[i] = init.locals[i]
+				}
+			}
+			if ns != nil {
+				s = *ns
+			}
+		}
+		k := s.key()
+		if seen[b][k] {
+			return
+		}
+		seen[b][k] = true
+		work = append(work, item{b, s.clone()})
+	}
+	for _, s := range starts {
+		push(g.Blocks[0], s)
+	}
+	for len(work) > 0 && fr.unknown == "" {
 		it := work[len(work)-1]
 		work = work[:len(work)-1]
 		b := it.b
-		cur := []c01State{it.s}
+		fr.nstate++
+		cur := []c01St{it.s}
+		cond := fm.f.condOf(b)
+		returned := false
 		for i, n := range b.Nodes {
-			isCond := i == len(b.Nodes)-1 && len(b.Succs) == 2
-			if isCond {
-				if _, isExpr := n.(ast.Expr); isExpr {
-					for _, st := range cur {
-						fr.uses(n, st)
-					}
-					continue
+			if cond != nil && i == len(b.Nodes)-1 {
+				for _, s := range cur {
+					fm.uses(n, s)
 				}
+				if c01ContainsCall(n, func(call *ast.CallExpr) bool { return fm.decoderMethod(call) != nil }) && fr.unknown == "" {
+					fr.unknown, fr.upos = fmt.Sprintf("a branch condition of %s calls a method of the per-worker decoder; effects of calls inside conditions are not modelled", fi.Name()), n.Pos()
+				}
+				continue
 			}
-			var next []c01State
-			for _, st := range cur {
-				next = append(next, fr.transfer(n, st)...)
+			var next []c01St
+			for _, s := range cur {
+				next = append(next, fm.transfer(n, s)...)
 			}
 			cur = next
+			if _, isRet := n.(*ast.ReturnStmt); isRet {
+				returned = true
+			}
 		}
-		fr.nstate++
-		var cond ast.Expr
-		if len(b.Succs) == 2 && len(b.Nodes) > 0 {
-			cond, _ = b.Nodes[len(b.Nodes)-1].(ast.Expr)
+		if returned {
+			continue
 		}
-		for _, st := range cur {
-			for si, s := range b.Succs {
-				if cond != nil && fr.isBoolCond(cond) {
-					v := fr.eval(cond, st)
-					if (si == 0 && v == triF) || (si == 1 && v == triT) {
+		if len(b.Succs) == 0 {
+			// fell off the end of a function without results (or a panic)
+			if c01IsNormalExit(fm.f, b) {
+				for _, s := range cur {
+					fm.exits[c01Exit{string(s.fields), '-'}] = true
+				}
+			}
+			continue
+		}
+		for _, s := range cur {
+			for si, nb := range b.Succs {
+				ns := s
+				if cond != nil && len(b.Succs) == 2 {
+					v := fm.eval(cond, s)
+					if (si == 0 && v == c01F) || (si == 1 && v == c01T) {
 						continue
 					}
+					ns = fm.refine(cond, s, si == 0)
 				}
-				push(s, st)
+				push(nb, ns)
 			}
 		}
 	}
-	_ = m
+	var out []c01Exit
+	for e := range fm.exits {
+		out = append(out, e)
+	}
+	sort.Slice(out, func(i, j int) bool {
+		if out[i].fields != out[j].fields {
+			return out[i].fields < out[j].fields
+		}
+		return out[i].err < out[j].err
+	})
+	fr.memo[key] = out
+	return out
 }
 
-func (fr *c01Fresh) isBoolCond(e ast.Expr) bool {
-	t := fr.info.TypeOf(e)
-	if t == nil {
-		return false
+// trackedField: selector e denotes a tracked iterator field of the per-worker decoder.
+func (fm *c01Frame) trackedField(e ast.Expr) (*types.Var, bool) {
+	sel, ok := ast.Unparen(e).(*ast.SelectorExpr)
+	if !ok {
+		return nil, false
 	}
-	b, ok := t.Underlying().(*types.Basic)
-	return ok && b.Info()&types.IsBoolean != 0
+	f := fieldOf(fm.fr.info, sel)
+	if f == nil {
+		return nil, false
+	}
+	if _, tracked := fm.fr.fieldIdx[f]; !tracked {
+		return nil, false
+	}
+	return f, true
 }
 
 // eval evaluates a condition under a valuation.
-func (fr *c01Fresh) eval(e ast.Expr, st c01State) tri {
-	return evalTri(e, func(a ast.Expr) tri {
+func (fm *c01Frame) eval(e ast.Expr, st c01St) c01Tri {
+	info := fm.fr.info
+	return c01Eval(info, e, func(a ast.Expr) c01Tri {
 		a = ast.Unparen(a)
 		if id, ok := a.(*ast.Ident); ok {
-			if k, ok := fr.bools[objOf(fr.info, id)]; ok {
-				if st[k] == 'T' {
-					return triT
-				}
-				return triF
-			}
-			if id.Name == "true" {
-				return triT
-			}
-			if id.Name == "false" {
-				return triF
+			if i, ok := fm.lidx[objOf(info, id)]; ok && !isErrorType(fm.locals[i].Type()) {
+				return c01Bool(st.locals[i] == 'T')
 			}
 		}
-		if be, ok := a.(*ast.BinaryExpr); ok && (be.Op == token.NEQ || be.Op == token.EQL) {
-			if id, ok := ast.Unparen(be.Y).(*ast.Ident); ok && id.Name == "nil" {
-				if f := fieldOf(fr.info, be.X); f != nil {
-					if k, ok := fr.fields[f]; ok {
-						v := triU
-						switch st[k] {
-						case 'A':
-							v = triT
-						case 'N':
-							v = triF
-						}
-						if be.Op == token.EQL {
-							v = triNot(v)
-						}
-						return v
-					}
+		if x, neq, ok := c01NilCmp(a); ok {
+			v := c01U
+			if f, ok := fm.trackedField(x); ok {
+				switch st.fields[fm.fr.fieldIdx[f]] {
+				case 'A':
+					v = c01T
+				case 'N':
+					v = c01F
 				}
+			} else if i, ok := fm.lidx[objOf(info, x)]; ok && isErrorType(fm.locals[i].Type()) {
+				switch st.locals[i] {
+				case 'E':
+					v = c01T
+				case 'Z':
+					v = c01F
+				}
+			} else {
+				return c01U
 			}
+			if !neq {
+				v = c01Not(v)
+			}
+			return v
 		}
-		return triU
+		return c01U
 	})
 }
 
-// uses records uses of iterator fields inside node n under valuation st.
-func (fr *c01Fresh) uses(n ast.Node, st c01State) {
+// refine sharpens an unknown error local when the condition is a single nil comparison of it.
+func (fm *c01Frame) refine(cond ast.Expr, st c01St, taken bool) c01St {
+	info := fm.fr.info
+	e := ast.Unparen(cond)
+	for {
+		ue, ok := e.(*ast.UnaryExpr)
+		if !ok || ue.Op != token.NOT {
+			break
+		}
+		e, taken = ast.Unparen(ue.X), !taken
+	}
+	x, neq, ok := c01NilCmp(e)
+	if !ok {
+		return st
+	}
+	i, ok := fm.lidx[objOf(info, x)]
+	if !ok || !isErrorType(fm.locals[i].Type()) || st.locals[i] != '?' {
+		return st
+	}
+	ns := st.clone()
+	if neq == taken {
+		ns.locals[i] = 'E'
+	} else {
+		ns.locals[i] = 'Z'
+	}
+	return ns
+}
+
+func (fm *c01Frame) flagDesc(st c01St) string {
+	var fs []string
+	for i, o := range fm.locals {
+		if !isErrorType(o.Type()) && st.locals[i] == 'F' {
+			fs = append(fs, o.Name()+"=false")
+		}
+	}
+	sort.Strings(fs)
+	if len(fs) == 0 {
+		return "-"
+	}
+	return strings.Join(fs, ", ")
+}
+
+// uses records uses of iterator fields inside node n under valuation st (calls into the decoder's methods excluded:
+// those are executed by transfer).
+func (fm *c01Frame) uses(n ast.Node, st c01St) {
+	fr := fm.fr
 	info := fr.info
-	m := fr.cm.m
-	flagDesc := func() string {
-		var fs []string
-		for o, k := range fr.bools {
-			if st[k] == 'F' {
-				fs = append(fs, o.Name()+"=false")
-			}
+	report := func(f *types.Var, pos token.Pos, how string) {
+		if fr.usePos[f] == nil {
+			fr.usePos[f] = map[token.Pos]bool{}
 		}
-		sort.Strings(fs)
-		return strings.Join(fs, ", ")
-	}
-	report := func(f *types.Var, pos token.Pos, how string, need string) {
-		k := fr.fields[f]
-		fr.countUse(k, pos)
-		v := st[k]
-		if v == 'S' || (v == 'N' && need == "A") {
-			what := "still holds the iterator of an earlier block or element"
-			if v == 'N' {
-				what = "is nil"
-			}
-			if _, dup := fr.viol[k]; !dup {
-				fr.viol[k] = fmt.Sprintf("%s %s %s on a path where it %s (valuation: %s): a block or element that lacks this optional column is decoded with the values of an earlier one (or crashes) instead of the format default", k, how, fr.r.P.Rel(pos), what, flagDesc())
-				fr.vpos[k] = pos
-			}
+		fr.usePos[f][pos] = true
+		v := st.fields[fr.fieldIdx[f]]
+		if v == 'A' {
+			return
 		}
+		if _, dup := fr.viol[f]; dup {
+			return
+		}
+		what := "still holds the iterator of an earlier block or element"
+		if v == 'N' {
+			what = "is nil"
+		}
+		fr.viol[f] = fmt.Sprintf("dec.%s %s %s (in %s) on a path where it %s (valuation in %s: %s): a block or element that lacks this optional column is decoded with the values of an earlier one (or crashes) instead of the format default", f.Name(), how, fr.r.P.Rel(pos), fm.fi.Name(), what, fm.fi.Name(), fm.flagDesc(st))
+		fr.vpos[f] = pos
 	}
-	par := parentsOf(fr.r.P, fr.fi)
+	par := fm.f.par
 	ast.Inspect(n, func(x ast.Node) bool {
 		switch e := x.(type) {
 		case *ast.FuncLit:
 			return false
 		case *ast.SelectorExpr:
-			f := fieldOf(info, e)
-			if f == nil {
-				return true
-			}
-			if _, tracked := fr.fields[f]; !tracked || namedPath(selRecv(info, e)) != namedPath(m.ddT) {
+			f, ok := fm.trackedField(e)
+			if !ok {
 				return true
 			}
 			switch p := par[e].(type) {
 			case *ast.BinaryExpr:
-				if p.Op == token.NEQ || p.Op == token.EQL {
+				if _, _, isNil := c01NilCmp(p); isNil {
 					return true // nil comparison
 				}
 			case *ast.AssignStmt:
@@ -351,114 +507,223 @@ func (fr *c01Fresh) uses(n ast.Node, st c01State) {
 				}
 				for _, a := range p.Args {
 					if a == e {
-						report(f, e.Pos(), "is passed to "+src(fr.r.P.Fset, p.Fun)+" at", "A")
+						report(f, e.Pos(), "is passed to "+src(fr.r.P.Fset, p.Fun)+" at")
 						return true
 					}
 				}
 			case *ast.SelectorExpr:
 				if p.X == e {
-					report(f, e.Pos(), "is read ("+p.Sel.Name+") at", "A")
+					report(f, e.Pos(), "is read ("+p.Sel.Name+") at")
 					return true
 				}
 			}
-			report(f, e.Pos(), "is used at", "A")
-		case *ast.CallExpr:
-			fn := callee(info, e)
-			if fn == nil || fn.Pkg() != m.pk.Types {
-				return true
-			}
-			if sig := fn.Type().(*types.Signature); sig.Recv() != nil && namedPath(sig.Recv().Type()) == namedPath(m.ddT) && fn != fr.fi.Obj {
-				for f, need := range c01Summary(fr.cm, fn) {
-					if _, tracked := fr.fields[f]; tracked {
-						how := "is used by " + fn.Name() + " (called at"
-						if need == "AN" {
-							how = "is used under a nil test by " + fn.Name() + " (called at"
-						}
-						k := fr.fields[f]
-						fr.countUse(k, e.Pos())
-						v := st[k]
-						if v == 'S' || (v == 'N' && need == "A") {
-							if _, dup := fr.viol[k]; !dup {
-								what := "still holds the iterator of an earlier block or element"
-								if v == 'N' {
-									what = "is nil"
-								}
-								fr.viol[k] = fmt.Sprintf("%s %s %s) on a path where it %s (valuation: %s): a block that lacks this optional column is decoded with the values of an earlier block instead of the format default", k, how, fr.r.P.Rel(e.Pos()), what, flagDesc())
-								fr.vpos[k] = e.Pos()
-							}
-						}
-					}
-				}
-			}
+			report(f, e.Pos(), "is used at")
 		}
 		return true
 	})
 }
 
+// isDecoderMethod: fn is a method of the per-worker decoder declared in the package.
+func (fm *c01Frame) decoderMethod(call *ast.CallExpr) *FuncInfo {
+	m := fm.fr.cm.m
+	tf := c01Callee(m.pk, call)
+	if tf == nil {
+		return nil
+	}
+	sig := tf.Obj.Type().(*types.Signature)
+	if sig.Recv() == nil || namedPath(sig.Recv().Type()) != namedPath(m.ddT) {
+		return nil
+	}
+	return tf
+}
+
 // transfer applies one CFG node to a valuation (possibly forking).
-func (fr *c01Fresh) transfer(n ast.Node, st c01State) []c01State {
+func (fm *c01Frame) transfer(n ast.Node, st c01St) []c01St {
+	fr := fm.fr
 	info := fr.info
-	fr.uses(n, st)
-	out := []c01State{st}
-	set := func(k string, v byte) {
+	fm.uses(n, st)
+	out := []c01St{st.clone()}
+	// calls of the decoder's own methods, in source order
+	var calls []*ast.CallExpr
+	ast.Inspect(n, func(x ast.Node) bool {
+		if _, ok := x.(*ast.FuncLit); ok {
+			return false
+		}
+		if call, ok := x.(*ast.CallExpr); ok && fm.decoderMethod(call) != nil {
+			calls = append(calls, call)
+		}
+		return true
+	})
+	callErr := map[*ast.CallExpr][]byte{} // per out-state index: error class of the call
+	for _, call := range calls {
+		tf := fm.decoderMethod(call)
+		var nw []c01St
+		var errs []byte
+		prev := callErr
+		callErr = map[*ast.CallExpr][]byte{}
+		for si, s := range out {
+			for _, ex := range fr.run(tf, string(s.fields)) {
+				t := s.clone()
+				t.fields = []byte(ex.fields)
+				nw = append(nw, t)
+				errs = append(errs, ex.err)
+				for c, v := range prev {
+					callErr[c] = append(callErr[c], v[si])
+				}
+			}
+		}
+		callErr[call] = errs
+		out = nw
+	}
+	if len(out) == 0 {
+		return nil
+	}
+	set := func(i int, v byte) {
 		for _, s := range out {
-			s[k] = v
+			s.locals[i] = v
 		}
 	}
-	fork := func(k string, a, b byte) {
-		var nw []c01State
+	fork := func(i int, a, b byte) {
+		var nw []c01St
 		for _, s := range out {
-			cp := c01State{}
-			for x, y := range s {
-				cp[x] = y
+			t := s.clone()
+			s.locals[i] = a
+			t.locals[i] = b
+			nw = append(nw, s, t)
+		}
+		for c, v := range callErr {
+			var dv []byte
+			for _, x := range v {
+				dv = append(dv, x, x)
 			}
-			s[k] = a
-			cp[k] = b
-			nw = append(nw, s, cp)
+			callErr[c] = dv
 		}
 		out = nw
 	}
+	// errClass of an expression per out state
+	errClass := func(e ast.Expr, facts []guardFact) []byte {
+		res := make([]byte, len(out))
+		e = ast.Unparen(e)
+		if call, ok := e.(*ast.CallExpr); ok {
+			if v, ok := callErr[call]; ok && len(v) == len(out) {
+				return v
+			}
+		}
+		for si, s := range out {
+			switch {
+			case isNilIdent(e):
+				res[si] = 'Z'
+			case c01IsErrNonNilExpr(info, e, facts):
+				res[si] = 'E'
+			default:
+				res[si] = '?'
+				if i, ok := fm.lidx[objOf(info, e)]; ok && isErrorType(fm.locals[i].Type()) {
+					res[si] = s.locals[i]
+				}
+			}
+		}
+		return res
+	}
+	assignLocal := func(lhs ast.Expr, rhs ast.Expr, resIdx int) {
+		o := objOf(info, lhs)
+		i, ok := fm.lidx[o]
+		if !ok {
+			return
+		}
+		if isErrorType(o.Type()) {
+			switch {
+			case rhs == nil:
+				set(i, 'Z')
+			default:
+				if call, isCall := ast.Unparen(rhs).(*ast.CallExpr); isCall && resIdx >= 0 {
+					// error result of a call: last result
+					if v, ok := callErr[call]; ok && len(v) == len(out) {
+						for si, s := range out {
+							s.locals[i] = v[si]
+							if v[si] == '-' {
+								s.locals[i] = '?'
+							}
+						}
+						return
+					}
+					set(i, '?')
+					return
+				}
+				cls := errClass(rhs, nil)
+				for si, s := range out {
+					s.locals[i] = cls[si]
+				}
+			}
+			return
+		}
+		// bool
+		if rhs != nil && resIdx < 0 {
+			switch fm.evalConst(rhs) {
+			case c01T:
+				set(i, 'T')
+				return
+			case c01F:
+				set(i, 'F')
+				return
+			}
+			// a boolean expression over tracked atoms
+			vals := make([]c01Tri, len(out))
+			allKnown := true
+			for si, s := range out {
+				vals[si] = fm.eval(rhs, s)
+				if vals[si] == c01U {
+					allKnown = false
+				}
+			}
+			if allKnown {
+				for si, s := range out {
+					s.locals[i] = 'F'
+					if vals[si] == c01T {
+						s.locals[i] = 'T'
+					}
+				}
+				return
+			}
+		} else if rhs == nil {
+			set(i, 'F')
+			return
+		}
+		fork(i, 'T', 'F')
+	}
 	switch s := n.(type) {
 	case *ast.AssignStmt:
-		for i, l := range s.Lhs {
-			if f := fieldOf(info, l); f != nil {
-				k, tracked := fr.fields[f]
-				if !tracked {
-					continue
-				}
-				var rhs ast.Expr
-				if len(s.Rhs) == len(s.Lhs) {
-					rhs = s.Rhs[i]
-				} else if len(s.Rhs) == 1 {
-					rhs = s.Rhs[0]
-				}
+		for li, l := range s.Lhs {
+			var rhs ast.Expr
+			resIdx := -1
+			if len(s.Rhs) == len(s.Lhs) {
+				rhs = s.Rhs[li]
+			} else if len(s.Rhs) == 1 {
+				rhs, resIdx = s.Rhs[0], li
+			}
+			if f, ok := fm.trackedField(l); ok {
+				k := fr.fieldIdx[f]
+				v := byte('S')
 				switch {
 				case rhs == nil:
-					set(k, 'S')
-				case isNilIdent(rhs):
-					set(k, 'N')
+				case resIdx < 0 && isNilIdent(rhs):
+					v = 'N'
 				default:
-					if call, ok := ast.Unparen(rhs).(*ast.CallExpr); ok && isMethod(callee(info, call), protoscanMsg, "Iterator") && i == 0 {
-						set(k, 'A')
-					} else {
-						set(k, 'S')
+					if call, ok := ast.Unparen(rhs).(*ast.CallExpr); ok && isMethod(callee(info, call), protoscanMsg, "Iterator") && (resIdx == 0 || resIdx < 0) {
+						v = 'A'
 					}
+				}
+				for _, st := range out {
+					st.fields[k] = v
 				}
 				continue
 			}
-			if o := objOf(info, l); o != nil {
-				if k, ok := fr.bools[o]; ok {
-					var rhs ast.Expr
-					if len(s.Rhs) == len(s.Lhs) {
-						rhs = s.Rhs[i]
-					}
-					if id, ok := rhs.(*ast.Ident); ok && id.Name == "true" {
-						set(k, 'T')
-					} else if ok && id.Name == "false" {
-						set(k, 'F')
-					} else {
-						fork(k, 'T', 'F')
-					}
+			if s.Tok == token.ASSIGN || s.Tok == token.DEFINE {
+				assignLocal(l, rhs, resIdx)
+			} else if i, ok := fm.lidx[objOf(info, l)]; ok {
+				if isErrorType(fm.locals[i].Type()) {
+					set(i, '?')
+				} else {
+					fork(i, 'T', 'F')
 				}
 			}
 		}
@@ -466,47 +731,71 @@ func (fr *c01Fresh) transfer(n ast.Node, st c01State) []c01State {
 		if gd, ok := s.Decl.(*ast.GenDecl); ok {
 			for _, sp := range gd.Specs {
 				if vs, ok := sp.(*ast.ValueSpec); ok {
-					for i, nm := range vs.Names {
-						if k, ok := fr.bools[info.Defs[nm]]; ok {
-							v := byte('F')
-							if i < len(vs.Values) {
-								if id, ok := vs.Values[i].(*ast.Ident); ok && id.Name == "true" {
-									v = 'T'
-								}
-							}
-							set(k, v)
-						}
-					}
+					fm.valueSpec(vs, assignLocal)
 				}
 			}
 		}
 	case *ast.ValueSpec:
-		for i, nm := range s.Names {
-			if k, ok := fr.bools[info.Defs[nm]]; ok {
-				v := byte('F')
-				if i < len(s.Values) {
-					if id, ok := s.Values[i].(*ast.Ident); ok && id.Name == "true" {
-						v = 'T'
-					}
-				}
-				set(k, v)
+		fm.valueSpec(s, assignLocal)
+	case *ast.ReturnStmt:
+		sig := fm.fi.Obj.Type().(*types.Signature)
+		hasErr := sig.Results().Len() > 0 && isErrorType(sig.Results().At(sig.Results().Len()-1).Type())
+		var cls []byte
+		switch {
+		case !hasErr:
+			cls = make([]byte, len(out))
+			for i := range cls {
+				cls[i] = '-'
 			}
+		case len(s.Results) == 0:
+			// named results
+			cls = make([]byte, len(out))
+			for i := range cls {
+				cls[i] = '?'
+			}
+		default:
+			last := s.Results[len(s.Results)-1]
+			cls = errClass(last, fm.f.factsAtPos(s.Pos()))
+			for i := range cls {
+				if cls[i] == '-' {
+					cls[i] = '?'
+				}
+			}
+		}
+		for si, st := range out {
+			fm.exits[c01Exit{string(st.fields), cls[si]}] = true
 		}
 	}
 	return out
 }
 
+func (fm *c01Frame) valueSpec(vs *ast.ValueSpec, assign func(lhs ast.Expr, rhs ast.Expr, resIdx int)) {
+	for i, nm := range vs.Names {
+		switch {
+		case len(vs.Values) == len(vs.Names):
+			assign(nm, vs.Values[i], -1)
+		case len(vs.Values) == 1:
+			assign(nm, vs.Values[0], i)
+		default:
+			assign(nm, nil, -1)
+		}
+	}
+}
+
+// evalConst: the constant truth value of e, or unknown.
+func (fm *c01Frame) evalConst(e ast.Expr) c01Tri {
+	if tv, ok := fm.fr.info.Types[e]; ok && tv.Value != nil {
+		switch tv.Value.String() {
+		case "true":
+			return c01T
+		case "false":
+			return c01F
+		}
+	}
+	return c01U
+}
+
 func isNilIdent(e ast.Expr) bool {
 	id, ok := ast.Unparen(e).(*ast.Ident)
 	return ok && id.Name == "nil"
-}
-
-func (fr *c01Fresh) countUse(k string, pos token.Pos) {
-	if fr.usePos[k] == nil {
-		fr.usePos[k] = map[token.Pos]bool{}
-	}
-	if !fr.usePos[k][pos] {
-		fr.usePos[k][pos] = true
-		fr.nuse[k]++
-	}
 }
